@@ -67,6 +67,19 @@ def shrinkers_in(sl):
     return sorted(out)
 
 
+def shrinkers_except(sl, allowed_call):
+    """like shrinkers_in, but a shrinking call for which allowed_call(CallSite) holds is not counted (e.g. `find` used to look a
+    definition up by name, which is selection, not loss)"""
+    names = shrinkers_in(sl)
+    keep = []
+    for v in names:
+        sites = [c for c in sl.calls if c.name == v]
+        if sites and all(allowed_call(c) for c in sites):
+            continue
+        keep.append(v)
+    return keep
+
+
 def snake(name):
     return re.sub(r"(?<!^)(?=[A-Z])", "_", name).lower().replace("pkcs9_email", "pkcs9_email")
 
